@@ -9,14 +9,22 @@ READY = True
 LEVEL_TEXT = ('Partial. Coq theorems over R about kernels regenerated from TensorMath.py: detpIm1 = det(A+I)-1, A inv(A) = inv(A) A = I '
               'for det A != 0, deviator traceless, sym/skw split, polar-decomposition identities (given a symmetric square root), the '
               'minimax Pade approximation of cos(acos(x)/3) solves 4c^3-3c=x to 1e-13 on [0,1] (interval arithmetic), the sqrt/exp/log '
-              'relative-difference kernels equal the divided differences. The accuracy of eigen_sym33_unit, sqrt/exp/log/pow_symm, their '
+              'relative-difference kernels equal the divided differences; the Taylor kernel _relative_log_difference_taylor is within 1e-16 relative '
+              '(and never above) the divided difference of ln on the range |l1-l2| <= 0.05 min(l1,l2) where the branching kernel '
+              '_relative_log_difference selects it, hence that kernel is 1e-16-accurate for all positive distinct arguments; the kernels wired '
+              'into log_symm/pow_symm, _log_relative_difference and _pow_relative_difference (argsort by magnitude, log1p/expm1, nearOne/xIsZero '
+              'selects; now generated from the source), equal the divided differences of ln and x^m for all positive distinct arguments in '
+              'either order, and the power kernel returns m x^(m-1) on coinciding arguments. Not proved for the kernels: negative arguments, '
+              'binary64 rounding (log1p/expm1 are ln(1+x)/exp(y)-1 over R; the implementation values are compared with 60-digit divided '
+              'differences on every run). The accuracy of eigen_sym33_unit, sqrt/exp/log/pow_symm, their '
               'JVP rules, sqrtm and logm_iss is NOT proved for all inputs: every explored instance is certified by Coq result checkers '
-              '(proved sound) executed by vm_compute on the exact rational values of the implementation outputs; exp/log derivative '
-              'rules are only compared with central differences (test).')
+              '(proved sound) executed by vm_compute on the exact rational values of the implementation outputs; the derivative '
+              'rules of sqrt/log/exp/pow_symm are compared per instance (Coq checker) with the closed-form Daleckii-Krein derivative whose '
+              'divided differences are computed in 60-digit arithmetic, and with central differences (tests, not proofs).')
 TECHNIQUE = 'Coq proof (Reals + Interval) over regenerated kernels; proved-sound result checkers over Q run by vm_compute on implementation outputs'
 GEN = ['Math', 'TensorMath', 'TensorMathFun']
-TARGETS = ['model/M_C08.vo', 'proofs/L_C08.vo', 'model/M_C12.vo', 'proofs/L_C12.vo']
-COQ_FILES = ['base/Num.v', 'model/M_C12.v', 'proofs/L_C12.v', 'props/P_C12.v']
+TARGETS = ['model/M_C08.vo', 'proofs/L_C08.vo', 'model/M_C12.vo', 'proofs/L_C12.vo', 'proofs/L_C12_RD.vo']
+COQ_FILES = ['base/Num.v', 'model/M_C12.v', 'proofs/L_C12.v', 'proofs/L_C12_RD.v', 'props/P_C12.v']
 BUILD_TIMEOUT = 1500
 TRUSTED = ['Coq 8.16.1 kernel + vm_compute (no native_compute); coq-interval for the Pade bound (PrimFloat/Uint63 primitives)',
            'tools/vlib/py2coq.py translator, cross-checked by running the generated scalar kernels at binary64 against the implementation',
@@ -25,11 +33,22 @@ TRUSTED = ['Coq 8.16.1 kernel + vm_compute (no native_compute); coq-interval for
 ASSUMPTIONS = ['exact real arithmetic in theorems (a)-(c)',
                'checker verdicts certify the explored instances only, with the stated tolerances (1e-11 relative for decompositions / '
                'identities in a single compiled call, 1e-9 inside compiled batches and for derivative identities, 1e-6 relative for central-difference comparisons)',
+               'nearly hydrostatic stream: 1e-13 relative to |A| (single call and batch); derivative rules versus the closed-form Daleckii-Krein '
+               'derivative: 1e-11 relative (1e-9 inside compiled batches at nearly repeated pairs with gap >= 1e-6; smaller gaps in batches are the '
+               'open finding EIGVMAP and are not evaluated); relative-difference kernels of the implementation versus 60-digit divided differences: '
+               '1e-13 (arithmetic kernels) / 1e-12 (kernels using XLA log1p/expm1, themselves ~2e-14 accurate)',
+               'the closed-form derivative reference uses the constructed (R, lam) of A = R diag(lam) R^T (A itself is that product rounded to binary64)',
+               'jax.argsort is stable (ties keep the operand order) -- the translator models argsort of a 2-vector as a swap iff the second entry is strictly smaller',
                'jax.jvp applies the custom rules that the library registers']
 RULE = ('symmetric 3x3 tensors A = s R diag(l) R^T: s over 1e-20..1e20 (40 decades), eigenvalue gaps exactly 0 (diagonal / permuted '
         'construction), 1e-14..1 relative, rank deficient, generic and in-plane block orientations; each evaluated as a single compiled '
         'call and inside jit(vmap) batches; SPD tensors for sqrt/log/pow; dense SPD-spectrum matrices of size 2..10; a case is '
-        'non-trivial when A is not a multiple of the identity; distinct = distinct tensors')
+        'non-trivial when A is not a multiple of the identity; distinct = distinct tensors; round 3: nearly hydrostatic tensors '
+        's R diag(1, 1+g a, 1-g b) R^T with spread g stratified over 1e-12..1e-6 (40 decades of s for the decomposition, 1e-2..1e2 for the '
+        'functions); derivative-rule cases stratified over relative gaps 1e-9..1e-3 of one eigenvalue pair, tensor magnitudes 1e-10..1e6 with '
+        'well separated eigenvalues, and nearly hydrostatic states, with random symmetric directions plus a shear inside the close pair; '
+        'eigenvalue pairs for the relative-difference kernels: nearly equal (1e-14..4e-2 relative), around the 5 % Taylor switch, around the '
+        'small/big = 1/2 switch, ratios down to 1e-3, both operand orders, exponents m in +-[0.25, 3]')
 IMPORTS = ['From OV.gen Require Import Gen_TensorMathFun.', 'From OV.model Require Import M_C12.']
 
 TOL = 1e-11    # single compiled call
@@ -47,6 +66,8 @@ def ql(v):
 
 def qtol(t):
     from fractions import Fraction
+    if t < 1e-20:       # tiny absolute tolerances (derivatives of tensors of magnitude 1e-10): exact, limit_denominator would return 0
+        return C.cq(Fraction(t))
     return C.cq(Fraction(t).limit_denominator(10 ** 30) if t < 1e-3 else Fraction(t))
 
 
@@ -261,6 +282,171 @@ def run_checks(ctx, n_eig, n_fun, n_dense):
     return items
 
 
+TOLT = 1e-13   # nearly hydrostatic stream: measured <= 3e-15 on the unchanged tree (single call and compiled batch)
+TOLJ = 1e-11   # derivative rules versus the closed-form Daleckii-Krein derivative: measured <= 4e-14 (single call)
+
+
+def gen_near_triple(r, k, wide):
+    """A = s R diag(1, 1+g a, 1-g b) R^T: all three eigenvalues within a relative spread g in 1e-12..1e-6 (stratified by k), none
+    equal; magnitudes over 40 decades when `wide`; generic and in-plane block orientations"""
+    import numpy as onp
+    s = 10.0 ** (r.uniform(-20, 20) if wide else r.uniform(-2, 2))
+    g = 10.0 ** (-12 + (k % 6) + r.uniform(0, 1))
+    l = [1.0, 1.0 + g * r.uniform(0.3, 1.0), 1.0 - g * r.uniform(0.3, 1.0)]
+    r.shuffle(l)
+    R = onp.array(rot(r, inplane=(k % 3 == 0)))
+    A = (R * onp.array(l)) @ R.T
+    A = 0.5 * (A + A.T) * s
+    return A, g
+
+
+def dk_reference(R, lam, E, fname, m=None):
+    """closed-form Frechet derivative L_f(A, E) = R [G o (R^T E R)] R^T for A = R diag(lam) R^T, G_ii = f'(lam_i),
+    G_ij = (f(lam_i) - f(lam_j)) / (lam_i - lam_j), the entries of G computed with 60-digit decimal arithmetic (independent of
+    the library and of binary64 cancellation)"""
+    import numpy as onp
+    from decimal import Decimal as D, getcontext
+    getcontext().prec = 60
+
+    def f(x):
+        if fname == 'sqrt':
+            return x.sqrt()
+        if fname == 'log':
+            return x.ln()
+        if fname == 'exp':
+            return x.exp()
+        return (D(m) * x.ln()).exp()
+
+    def fp(x):
+        if fname == 'sqrt':
+            return 1 / (2 * x.sqrt())
+        if fname == 'log':
+            return 1 / x
+        if fname == 'exp':
+            return x.exp()
+        return D(m) * ((D(m) - 1) * x.ln()).exp()
+    dl = [D(float(x)) for x in lam]
+    G = onp.zeros((3, 3))
+    for i in range(3):
+        for j in range(3):
+            G[i, j] = float(fp(dl[i])) if dl[i] == dl[j] else float((f(dl[i]) - f(dl[j])) / (dl[i] - dl[j]))
+    return R @ (G * (R.T @ E @ R)) @ R.T
+
+
+def run_tight(ctx, n_nt, n_ntf, n_jvp):
+    """round 3 streams (after two seeded changes were missed): (i) nearly hydrostatic tensors -- three eigenvalues within 1e-12..1e-6
+    relative, none equal -- decomposed and pushed through the spectral functions, certified with a tolerance that is tight relative
+    to |A| (1e-13); (ii) the derivative rules against the closed-form Daleckii-Krein derivative at relative gaps 1e-9..1e-3, tensor
+    magnitudes 1e-10..1e6 and nearly hydrostatic states (1e-11 relative).  -> list of (expr, meta)"""
+    import jax
+    import jax.numpy as np
+    import numpy as onp
+    import optimism  # noqa: F401
+    from optimism import TensorMath as TM
+    r = ctx.rng('c12tight')
+    items = []
+    I3 = onp.eye(3)
+    # ---- (i) eigen-decomposition of nearly hydrostatic tensors, single compiled call and compiled batch
+    As = [gen_near_triple(r, k, wide=(k % 2 == 0)) for k in range(n_nt)]
+    stack = np.array([a[0] for a in As])
+    lamB, VB = jf('eig', TM.eigen_sym33_unit, True)(stack)
+    lamB, VB = onp.array(lamB), onp.array(VB)
+    for i, (A, g) in enumerate(As):
+        lam1, V1 = jf('eig', TM.eigen_sym33_unit, False)(np.array(A))
+        for batch, lam, V in ((False, onp.array(lam1), onp.array(V1)), (True, lamB[i], VB[i])):
+            meta = dict(check='eig', kind='near_triple', gap=g, batch=batch, A=A.tolist(), lam=lam.tolist(), V=V.tolist())
+            ctx.count('near_triple_decompositions')
+            if not (onp.all(onp.isfinite(lam)) and onp.all(onp.isfinite(V))):
+                items.append((None, meta))
+            else:
+                items.append(('benc (check_eig %s %s %s %s)' % (qm(A), ql(lam), qm(V), qtol(TOLT)), meta))
+    # ---- spectral functions of nearly hydrostatic SPD tensors
+    Fs = [gen_near_triple(r, k, wide=False) for k in range(n_ntf)]
+    fstack = np.array([a[0] for a in Fs])
+    funs = {'sqrt': TM.sqrt_symm, 'log': TM.log_symm, 'exp': (lambda B: TM.exp_symm(B)),
+            'pow_p': (lambda B: TM.pow_symm(B, 0.7)), 'pow_m': (lambda B: TM.pow_symm(B, -0.7)), 'pow_2': (lambda B: TM.pow_symm(B, 2.0))}
+    for batch in (False, True):
+        out = {}
+        for nm, f in funs.items():
+            g_ = jf(nm, f, batch)
+            out[nm] = onp.array(g_(fstack)) if batch else onp.array([onp.array(g_(a)) for a in fstack])
+        expe = jf('exp', funs['exp'], batch)
+        for k, (A, g) in enumerate(Fs):
+            nA = float(onp.max(onp.sum(onp.abs(A), axis=1)))
+            meta = dict(kind='near_triple', gap=g, batch=batch, A=A.tolist())
+            S = out['sqrt'][k]
+            items.append(('benc (check_prod %s %s %s %s)' % (qm(S), qm(S), qm(A), qtol(TOLT * nA)), dict(meta, check='sqrt*sqrt=A')))
+            items.append(('benc (check_prod %s %s %s %s)' % (qm(out['pow_p'][k]), qm(out['pow_m'][k]), qm(I3), qtol(TOLT)), dict(meta, check='pow(m)*pow(-m)=I')))
+            items.append(('benc (check_prod %s %s %s %s)' % (qm(A), qm(A), qm(out['pow_2'][k]), qtol(TOLT * nA * nA)), dict(meta, check='pow(A,2)=A*A')))
+            L = out['log'][k]
+            EL = onp.array(expe(np.array(L))) if not batch else onp.array(expe(np.array([L, L]))[0])
+            items.append(('benc (check_prod %s %s %s %s)' % (qm(EL), qm(I3), qm(A), qtol(TOLT * nA)), dict(meta, check='exp(log A)=A')))
+            ctx.count('near_triple_function_identities', 4)
+    # ---- (ii) derivative rules versus the closed-form Daleckii-Krein derivative
+    powers = (0.25, 3.0, -1.0, -0.7)
+    rules = [('sqrt', TM.sqrt_symm, None), ('log', TM.log_symm, None), ('exp', TM.exp_symm, None)]
+    rules += [('pow', (lambda B, m=m: TM.pow_symm(B, m)), m) for m in powers]
+    cases = []
+    for k in range(n_jvp):
+        mode = ('near_double', 'magnitude', 'near_double', 'magnitude', 'near_triple')[k % 5]
+        if mode == 'near_double':      # relative gap 1e-9 .. 1e-3, stratified
+            s = 10.0 ** r.uniform(-2, 2)
+            g = 10.0 ** (-9 + ((k // 5 * 2 + k % 5 // 2) % 6) + r.uniform(0, 1))
+            a = r.uniform(0.5, 2.0)
+            l = [a, a * (1 + g), a * r.uniform(1.5, 3.0)]
+        elif mode == 'near_triple':
+            s = 10.0 ** r.uniform(-2, 2)
+            g = 10.0 ** r.uniform(-9, -3)
+            l = [1.0, 1 + g * r.uniform(0.3, 1), 1 - g * r.uniform(0.3, 1)]
+        else:                          # well separated eigenvalues, magnitude 1e-10 .. 1e6, stratified
+            s = 10.0 ** ((-10.0, -9.0, -8.5, -6.0, -3.0, 0.0, 3.0, 6.0)[(k // 5 * 2 + k % 5 // 2) % 8] + r.uniform(-0.3, 0.3))
+            g = 1.0
+            l = [1.0, r.uniform(1.5, 2.5), r.uniform(3.0, 4.0)]
+        r.shuffle(l)
+        lam = [s * x for x in l]
+        R = onp.array(rot(r, inplane=(k % 3 == 0)))
+        A = (R * onp.array(lam)) @ R.T
+        A = 0.5 * (A + A.T)
+        E = onp.array([[r.uniform(-1, 1) for _ in range(3)] for _ in range(3)])
+        E = 0.5 * (E + E.T)
+        if k % 2 == 0:   # add a shear inside the first two eigenvectors (the pair that is nearly repeated in near_double mode)
+            E = E + onp.outer(R[:, 0], R[:, 1]) + onp.outer(R[:, 1], R[:, 0])
+        cases.append((mode, s, g, lam, R, A, E))
+    for nm, f, m in rules:
+        key = nm if m is None else 'pow%g' % m
+        tan = lambda a, d, f=f: jax.jvp(f, (a,), (d,))[1]
+        sel = []
+        for c in cases:
+            mode, s, g, lam, R, A, E = c
+            if nm == 'exp' and max(lam) > 20:
+                continue
+            if nm == 'pow' and g < 1e-4:
+                # pow_symm documents that its derivative is inaccurate at nearly repeated eigenvalues: outside the property
+                ctx.count('pow_derivative_skipped_near_degenerate')
+                continue
+            sel.append(c)
+        if not sel:
+            continue
+        Tb = onp.array(jf('dk_' + key, tan, True)(np.array([c[5] for c in sel]), np.array([c[6] for c in sel])))
+        for i, (mode, s, g, lam, R, A, E) in enumerate(sel):
+            ref = dk_reference(R, lam, E, nm, m)
+            sc = float(onp.max(onp.abs(ref)))
+            T1 = onp.array(jf('dk_' + key, tan, False)(np.array(A), np.array(E)))
+            for batch, T in ((False, T1), (True, Tb[i])):
+                if batch and mode == 'near_double' and g < 1e-6:
+                    ctx.count('batched_derivative_skipped_known_finding_EIGVMAP_range')
+                    continue
+                tol = (TOLB if (batch and mode == 'near_double') else TOLJ) * sc
+                meta = dict(check='d %s vs closed-form Daleckii-Krein' % key, kind=mode, gap=g, batch=batch, A=A.tolist(), D=E.tolist(),
+                            scale=s, tangent=T.tolist(), reference=ref.tolist())
+                ctx.count('derivative_rule_vs_closed_form[%s]' % mode)
+                if not onp.all(onp.isfinite(T)):
+                    items.append((None, meta))
+                else:
+                    items.append(('benc (check_prod %s %s %s %s)' % (qm(T), qm(I3), qm(ref), qtol(tol)), meta))
+    return items
+
+
 def l1_scalar(ctx):
     """generated scalar kernels at binary64 vs the implementation"""
     import optimism  # noqa: F401
@@ -294,6 +480,114 @@ def l1_scalar(ctx):
     ctx.count('model_vs_impl_mismatches', mism)
 
 
+def gen_pair(r):
+    """eigenvalue pair for the relative-difference kernels -> (l1, l2, mode): nearly equal down to 1e-14 relative, around the 5 %
+    Taylor switch, around the small/big = 1/2 switch of the power kernel, far apart (ratio down to 1e-3); random operand order"""
+    l1 = 10.0 ** r.uniform(-3, 3)
+    mode = r.choice(['near', 'taylor_switch', 'half_switch', 'far'])
+    if mode == 'near':
+        l2 = l1 * (1 + r.choice([1, -1]) * 10.0 ** r.uniform(-14, -1.4))
+    elif mode == 'taylor_switch':
+        l2 = l1 * (1 + r.choice([1, -1]) * r.uniform(0.03, 0.07))
+    elif mode == 'half_switch':
+        l2 = l1 * r.uniform(0.45, 0.55)
+    else:
+        l2 = l1 * 10.0 ** r.uniform(-3, 0)
+    if r.random() < 0.5:
+        l1, l2 = l2, l1
+    return l1, l2, mode
+
+
+def rd_branches(ctx, l1, l2):
+    """which selects of the source a pair takes (evidence only)"""
+    small, big = (l2, l1) if abs(l2) < abs(l1) else (l1, l2)
+    ctx.count('rd_argsort_swapped' if abs(l2) < abs(l1) else 'rd_argsort_in_order')
+    ctx.count('rd_pow_nearOne' if small / big > 0.5 else 'rd_pow_far')
+    ctx.count('rd_log_taylor_branch' if abs(l1 - l2) <= 0.05 * min(l1, l2) else 'rd_log_plain_branch')
+    return small, big
+
+
+def l1_rd(ctx):
+    """round 3: the generated branching / argsort kernels (_relative_log_difference, _log_relative_difference,
+    _pow_relative_difference) executed at binary64 versus the implementation.  The translator renders log1p(x) as ln(1 + x) and
+    expm1(y) as exp(y) - 1, so the float model loses eps/|x| where the source does not: the tolerance states exactly that."""
+    import optimism  # noqa: F401
+    from optimism import TensorMath as TM
+    r = ctx.rng('l1rd')
+    eps = 2.220446049250313e-16
+    exprs, want, tols = [], [], []
+    for _ in range(ctx.n(60, 500)):
+        l1, l2, mode = gen_pair(r)
+        m = r.choice([-1.0, 2.0, 0.5, -0.7, 0.7, 3.0, r.uniform(0.25, 3), -r.uniform(0.25, 3)])
+        if l1 == l2:
+            continue
+        small, big = rd_branches(ctx, l1, l2)
+        x = abs(small / big - 1.0)
+        exprs.append('fencs [_relative_log_difference %s %s; _log_relative_difference %s %s; _pow_relative_difference %s %s %s]'
+                     % (C.cf(l1), C.cf(l2), C.cf(l1), C.cf(l2), C.cf(l1), C.cf(l2), C.cf(m)))
+        want.append([float(TM._relative_log_difference(l1, l2)), float(TM._log_relative_difference(l1, l2)),
+                     float(TM._pow_relative_difference(l1, l2, m))])
+        tols.append([1e-9, 1e-9 + 8 * eps / x, 1e-9 + 16 * eps * (1 + 1 / abs(m)) / x])
+    # coinciding arguments: the xIsZero select of the power kernel
+    for _ in range(ctx.n(6, 40)):
+        l = 10.0 ** r.uniform(-3, 3)
+        m = r.choice([-1.0, 2.0, 0.5, -0.7, 3.0, r.uniform(-3, 3)])
+        ctx.count('rd_pow_xIsZero')
+        exprs.append('fencs [_pow_relative_difference %s %s %s]' % (C.cf(l), C.cf(l), C.cf(m)))
+        want.append([float(TM._pow_relative_difference(l, l, m))])
+        tols.append([1e-9])
+    res = C.coq_eval(IMPORTS, exprs, 'C12rd', shard=200)
+    mism = 0
+    for zs, ws, ts, ex in zip(res, want, tols, exprs):
+        for j, (gv, wv, rt) in enumerate(zip(C.dec_floats(zs), ws, ts)):
+            ctx.count('model_vs_impl_comparisons')
+            ctx.count('rd_model_vs_impl_comparisons')
+            if not C.close(gv, wv, rtol=rt, atol=1e-300):
+                mism += 1
+                if mism < 8:
+                    ctx.fail('correspondence', 'generated relative-difference kernel #%d gives %r, implementation %r (tolerance %.3g) (%s)'
+                             % (j, gv, wv, rt, ex[:200]), case=dict(check='correspondence', kernel='rd%d' % j, model=gv, impl=wv))
+    ctx.count('rd_model_vs_impl_mismatches', mism)
+
+
+def l2_rd(ctx):
+    """round 3: the conclusions of C12_log_taylor_truncation / C12_relative_log_difference_accuracy /
+    C12_log_relative_difference_argsort / C12_pow_relative_difference_argsort evaluated on the IMPLEMENTATION's values, against the
+    divided differences computed with 60-digit decimal arithmetic.  Tolerances: 1e-13 relative for the kernels made of + - * / log
+    (a few binary64 roundings on top of the proved 1e-16 truncation error); 1e-12 for the two wired kernels (XLA's CPU log1p / expm1
+    are themselves only accurate to ~2e-14 relative, measured)."""
+    import optimism  # noqa: F401
+    from optimism import TensorMath as TM
+    from decimal import Decimal as D, getcontext
+    getcontext().prec = 60
+    r = ctx.rng('l2rd')
+    for _ in range(ctx.n(80, 800)):
+        l1, l2, mode = gen_pair(r)
+        if l1 == l2:
+            continue
+        m = r.choice([-1.0, 2.0, 0.5, -0.7, 0.7, 3.0, r.uniform(0.25, 3), -r.uniform(0.25, 3)])
+        ref = (D(l1).ln() - D(l2).ln()) / (D(l1) - D(l2))
+        refp = ((D(m) * D(l1).ln()).exp() - (D(m) * D(l2).ln()).exp()) / (D(l1) - D(l2))
+        rows = [('_relative_log_difference', float(TM._relative_log_difference(l1, l2)), ref, 1e-13),
+                ('_log_relative_difference', float(TM._log_relative_difference(l1, l2)), ref, 1e-12),
+                ('_pow_relative_difference', float(TM._pow_relative_difference(l1, l2, m)), refp, 1e-12)]
+        if abs(l1 - l2) <= 0.05 * min(l1, l2):
+            rows.append(('_relative_log_difference_taylor', float(TM._relative_log_difference_taylor(l1, l2)), ref, 1e-13))
+        for nm, got, rf, tol in rows:
+            ctx.count('rd_conclusion_checks')
+            err = float(abs(D(got) - rf) / abs(rf)) if got == got and not math.isinf(got) else float('inf')
+            if not err <= tol:
+                gap = abs(l1 - l2) / max(l1, l2)
+                if nm == '_pow_relative_difference' and gap < 1e-4:
+                    # pow_symm documents that its derivative is inaccurate at nearly repeated eigenvalues: outside the property
+                    ctx.count('rd_pow_inaccurate_near_degenerate')
+                    continue
+                ctx.fail('conclusion', '%s(%r, %r%s) differs from the divided difference by %.3g relative (tolerance %.3g, %s pair)'
+                         % (nm, l1, l2, ', m=%r' % m if 'pow' in nm else '', err, tol, mode),
+                         case=dict(check='relative difference ' + nm, kind=mode, gap=gap, batch=False, A=[l1, l2, m], value=got,
+                                   exact=float(rf)), concrete=True)
+
+
 def evaluate(ctx, items):
     exprs = [e for e, _ in items if e is not None]
     res = C.coq_eval(IMPORTS, exprs, 'C12', shard=120, timeout=900)
@@ -317,8 +611,10 @@ def correspondence(ctx, model_ok):
     if not model_ok:
         # the checkers are Coq code: without a compiled model nothing can be certified
         ctx.count('evaluations', 0)
+        l2_rd(ctx)
         return
     items = run_checks(ctx, ctx.n(50, 500), ctx.n(24, 200), ctx.n(9, 45))
+    items += run_tight(ctx, ctx.n(24, 240), ctx.n(8, 60), ctx.n(20, 120))
     fails = evaluate(ctx, items)
     ctx.count('evaluations', len(items))
     ctx.count('distinct_nontrivial', len({json.dumps(m['A']) for _, m in items if m.get('kind') != 'triple'}))
@@ -331,6 +627,8 @@ def correspondence(ctx, model_ok):
     for f in fails[:40]:
         ctx.fail(f['kind'], f['what'], case=f['case'], concrete=True)
     l1_scalar(ctx)
+    l1_rd(ctx)
+    l2_rd(ctx)
 
 
 def search(ctx, reasons):
@@ -339,7 +637,11 @@ def search(ctx, reasons):
     c2.failures, c2.counts, c2.cov, c2.samples = [], {}, {}, []
     c2.seed = ctx.seed + 1
     try:
-        items = run_checks(c2, 300, 60, 18)
+        l2_rd(c2)
+        early = [f for f in c2.failures if f.get('concrete')]
+        if early:
+            return early[0]
+        items = run_tight(c2, 60, 12, 40) + run_checks(c2, 300, 60, 18)
         fails = evaluate(c2, items) + [f for f in c2.failures if f.get('concrete')]
     except C.CoqError:
         return None
@@ -386,7 +688,7 @@ def matches_finding(fl, f):
     c = fl.get('case') or {}
     if f['id'] != 'EIGVMAP':
         return False
-    if not c.get('batch') or c.get('gap', 1.0) > 1e-6 or c.get('kind') == 'triple':
+    if not c.get('batch') or c.get('gap', 1.0) > 1e-6 or c.get('kind') in ('triple', 'near_triple'):
         return False
     chk = c.get('check', '')
     return chk == 'eig' or chk.startswith(('sqrt', 'pow', 'exp(', 'log(', 'A*pow', 'equivariance'))
@@ -397,6 +699,22 @@ def replay(ctx, path):
     case = rep.get('failing_input')
     print('replay of', path)
     print(json.dumps(rep.get('reasons'), indent=1)[:3000])
+    if case and str(case.get('check', '')).startswith('d ') and 'reference' in case:
+        import jax
+        import jax.numpy as np
+        import numpy as onp
+        from optimism import TensorMath as TM
+        key = case['check'].split()[1]
+        f = {'sqrt': TM.sqrt_symm, 'log': TM.log_symm, 'exp': TM.exp_symm}.get(key) or (lambda B, m=float(key[3:]): TM.pow_symm(B, m))
+        tan = lambda a, d: jax.jvp(f, (a,), (d,))[1]
+        A, E, ref = np.array(case['A']), np.array(case['D']), onp.array(case['reference'])
+        T = onp.array(jax.jit(jax.vmap(tan))(np.array([A, A]), np.array([E, E]))[0]) if case.get('batch') else onp.array(jax.jit(tan)(A, E))
+        err = float(onp.max(onp.abs(T - ref))) / float(onp.max(onp.abs(ref)))
+        tol = TOLB if (case.get('batch') and case.get('kind') == 'near_double') else TOLJ
+        bad = not err <= tol
+        print('implementation now: derivative rule of %s differs from the closed-form Daleckii-Krein derivative by %.3g relative (tolerance %.3g) -> %s'
+              % (key, err, tol, 'FAILS' if bad else 'holds'))
+        return 1 if bad else 0
     if not case or case.get('check') != 'eig':
         print('broken obligations / non-eigen case: re-run ./check C12 (cases are regenerated from the recorded seed %s)' % rep.get('seed'))
         return 1
@@ -412,6 +730,7 @@ def replay(ctx, path):
         lam, V = onp.array(lam), onp.array(V)
         rec, orth = float(onp.max(onp.abs(V @ onp.diag(lam) @ V.T - A))), float(onp.max(onp.abs(V.T @ V - onp.eye(3))))
     nA = float(onp.max(onp.sum(onp.abs(A), axis=1)))
-    bad = not (rec <= TOL * nA and orth <= TOL)
+    tol = TOLT if case.get('kind') == 'near_triple' else (TOLB if case.get('batch') else TOL)
+    bad = not (rec <= tol * nA and orth <= tol)
     print('implementation now: reconstruction error %.3g (|A| = %.3g), orthogonality error %.3g -> %s' % (rec, nA, orth, 'FAILS' if bad else 'holds'))
     return 1 if bad else 0
